@@ -38,6 +38,7 @@ THEOREMS = [P + n for n in [
     "merge_derived_table", "merge_derived_table_inner_join", "merge_guard_sound", "merge_guards_present",
     "merge_needs_no_distinct", "merge_needs_no_limit", "merge_inner_where_under_left_join_unsound",
     "merge_constant_projection_under_outer_join_unsound",
+    "decorrelate_scalar_aggregate", "decorrelate_constant_zero_fallback_unsound", "decorrelate_null_of_existing_group_unsound",
     "eliminate_left_join_on_unique_key", "unique_key_gives_at_most_one_match", "eliminate_left_join_needs_unique",
     "eliminate_inner_join_unsound", "eliminate_cross_join_single_row", "eliminate_cross_join_at_most_one_row_unsound",
     "single_row_guard_sound", "limit1_still_accepted", "eliminate_cross_join_grouped_aggregates_unsound",
@@ -790,6 +791,33 @@ class QGen:
             return f"{a}.a = 2 AND {a}.a < {r.choice([1, 3])}" if depth > 0 else f"{a}.a = 2"
         return f"{a}.{r.choice('ab')} {r.choice(CMP)} {r.choice([0, 1, 2, 3])}"
 
+    def agg_expr(self, t):
+        r = self.rng
+        cnt = r.choice(["COUNT(*)", f"COUNT({t}.a)", f"COUNT({t}.b)"])
+        other = f"{r.choice(['MAX', 'MIN', 'SUM'])}({t}.{r.choice('ab')})"
+        k = r.random()
+        if k < 0.15:
+            return cnt
+        if k < 0.35:
+            return f"{cnt} {r.choice(['+', '-', '*'])} {r.choice([1, 2])}"
+        if k < 0.5:
+            return f"CASE WHEN {cnt} {r.choice(['=', '>'])} {r.choice([0, 1])} THEN {r.choice([1, 7])} ELSE {r.choice([0, 'NULL', other])} END"
+        if k < 0.65:
+            return f"{cnt} + {other}"
+        if k < 0.78:
+            return f"COALESCE({other}, {cnt})"
+        if k < 0.86:
+            return f"COALESCE({other}, {r.choice([0, -1])}) + {cnt}"
+        if k < 0.92:
+            return f"NULLIF({cnt}, {r.choice([1, 2])})"
+        return other
+
+    def scalar_agg_subquery(self, outer):
+        r = self.rng
+        t = r.choice(["x", "y", "z"])
+        extra = f" AND {t}.{r.choice('ab')} {r.choice(CMP)} {r.choice([0, 1, 2])}" if r.random() < 0.3 else ""
+        return f"SELECT {self.agg_expr(t)} FROM {t} WHERE {t}.{r.choice('ab')} = {outer}.{r.choice('ab')}{extra}"
+
     def source(self, alias, allow_cte):
         """returns (from-item sql, cte definitions)"""
         r = self.rng
@@ -863,6 +891,12 @@ class QGen:
             where += (" AND " if where else " WHERE ") + f"{r.choice(['', 'NOT '])}EXISTS (SELECT 1 FROM z WHERE z.a = p.a{r.choice(['', ' AND z.b > 1'])})"
         elif sub < 0.2:
             where += (" AND " if where else " WHERE ") + f"p.b > (SELECT {r.choice(['MIN', 'MAX', 'COUNT'])}(z.b) FROM z WHERE z.a = p.a)"
+        elif sub < 0.3:
+            # expression OVER aggregates, correlated by equality: the empty group / unmatched outer row matters
+            where += (" AND " if where else " WHERE ") + f"p.{r.choice('ab')} {r.choice(CMP)} ({self.scalar_agg_subquery('p')})"
+        self.extra_select = None
+        if r.random() < 0.12:
+            self.extra_select = f"({self.scalar_agg_subquery('p')}) AS sq"
         total = False
         if shape < 0.2:
             k = r.choice(aliases)
@@ -877,6 +911,8 @@ class QGen:
                 cols.append(f"{a}.a AS c{2 * i}")
                 if r.random() < 0.7:
                     cols.append(f"{a}.b AS c{2 * i + 1}")
+            if self.extra_select:
+                cols.append(self.extra_select)
             sel = ("DISTINCT " if r.random() < 0.12 else "") + ", ".join(cols)
             tail = ""
             if r.random() < 0.25:
@@ -915,6 +951,13 @@ WITNESSES = [
     ("SELECT x.a AS xa, y.a AS ya FROM x LEFT JOIN y ON x.a = y.a JOIN z ON y.a = z.a", {"x": [[1, 1]], "y": [], "z": [[1, 1]]}),
     ("SELECT x.a AS xa FROM x RIGHT JOIN (SELECT a, b FROM y) AS y ON x.a = y.a RIGHT JOIN (SELECT a, b FROM z) AS z ON y.a = z.a WHERE y.b > 1", {"x": [], "y": [], "z": [[1, 1]]}),
     ("SELECT p.a AS pa FROM (SELECT 1 AS a FROM z) AS p FULL JOIN x ON p.a = x.b", {"x": [[1, 2]], "y": [], "z": []}),
+    # decorrelation of scalar subqueries over an EMPTY group (outer rows without a match, NULL keys, empty tables)
+    ("SELECT x.a AS xa FROM x WHERE x.a < (SELECT COUNT(*) + 1 FROM z WHERE z.b = x.b)", {"x": [[0, 1], [0, 5], [0, None]], "y": [], "z": [[1, 1]]}),
+    ("SELECT x.a AS xa, (SELECT CASE WHEN COUNT(*) = 0 THEN 1 ELSE 0 END FROM z WHERE z.b = x.b) AS c FROM x", {"x": [[1, 1], [2, 5], [None, None]], "y": [], "z": [[1, 1]]}),
+    ("SELECT x.a AS xa, (SELECT COUNT(*) + MAX(z.a) FROM z WHERE z.b = x.b) AS c FROM x", {"x": [[1, 1], [2, 5]], "y": [], "z": [[1, 1]]}),
+    ("SELECT x.a AS xa, (SELECT COALESCE(MAX(z.a), -1) + COUNT(z.a) FROM z WHERE z.b = x.b) AS c FROM x", {"x": [[1, 1], [2, 5]], "y": [], "z": [[1, 1]]}),
+    ("SELECT x.a AS xa, (SELECT COUNT(*) * 2 FROM y WHERE y.b = x.b) AS c FROM x", {"x": [[1, 1], [2, 5]], "y": [], "z": []}),
+    ("SELECT x.a AS xa, (SELECT NULLIF(COUNT(*), 2) FROM z WHERE z.b = x.b) AS c FROM x", {"x": [[1, 1], [2, 5]], "y": [], "z": [[1, 1], [3, 1]]}),
     ("SELECT x.a AS xa FROM x WHERE NOT (x.a = 5 AND x.a < 3)", {"x": [[None, 1], [1, 1]], "y": [], "z": []}),
     ("SELECT x.a AS xa FROM x WHERE x.a NOT IN (SELECT y.a FROM y)", {"x": [[1, 1], [None, 2]], "y": [[None, 1], [2, 2]], "z": []}),
 ]
@@ -930,7 +973,7 @@ def skeleton(sql):
             out.append("n")
         elif t.token_type == TokenType.STRING:
             out.append("lit")
-        elif re.fullmatch(r"[xyzpqsabkv]|c\d+|[xypq][ab]|xa|ya|pa|qa", t.text.lower()):
+        elif re.fullmatch(r"[xyzpqsabkv]|c\d+|[xypq][ab]|xa|ya|pa|qa|sq|c", t.text.lower()):
             out.append("id")
         else:
             out.append(t.text.upper())
